@@ -175,9 +175,18 @@ class World:
             self.lost.add(w)
             self.model_ops.append(['status', w, self.revn(rev)])
         elif kind == 'org':
+            # the run id of a unit: the id its request carried; work that is still pending is merged
+            # into one run -- a request for a fresh id (None) wins, else the newer id (never an older run)
+            pending = {t: bool(env.nodes[t].get('todo')) for t in op[1] if t in env.nodes}
             env.organize(op[1], op[2], op[3])
             for t in op[1]:
-                self.event_rid[t] = op[2]
+                if pending.get(t):
+                    was = self.event_rid.get(t)
+                    self.event_rid[t] = None if (was is None or op[2] is None) else max(was, op[2])
+                    pending[t] = True
+                else:
+                    self.event_rid[t] = op[2]
+                    pending[t] = True   # a name listed twice meets its own pending work
             self.trace.append(list(op))
             return
         elif kind == 'disp':
